@@ -14,7 +14,7 @@ fi
 cd "$HERE" || exit 2
 "$HERE/engine/target/release/mv" check "$ID" --tier "$TIER"
 RC=$?
-if [ $RC -ge 128 ] || [ $RC = 101 ]; then
+if [ $RC -ge 128 ]; then
   # The process was killed by a signal (e.g. SIGABRT from a panic inside a no-unwind section of the code under test,
   # a stack overflow, the OOM killer) or the harness itself panicked. An abort of the code under test is a crash of
   # validation, but it cannot be shrunk in-process: the replay file records the command that reproduces it.
